@@ -22,6 +22,8 @@ for d in sorted(os.listdir(os.path.join(V, 'seeded'))):
         # the property's own rules first
         own = [r for r in rules if r.startswith(m.get('property', '?'))]
         rows.append('| `%s` | %s |' % (d, ', '.join(own + [r for r in rules if r not in own])))
+    elif m.get('floor_only'):
+        rows.append('| `%s` | reported through a rule floor only (BROKEN-CHECK: the rule no longer sees the code it was written for) |' % d)
     elif m.get('missed') or m.get('status', '').startswith('superseded'):
         rows.append('| `%s` | **missed** |' % d)
     else:
